@@ -180,6 +180,7 @@ pub struct Agg {
     pub hints_checked: u64,
 }
 
+#[derive(Clone)]
 pub struct Failure {
     pub sig: String,
     pub msg: String,
@@ -253,8 +254,8 @@ fn classify(prop: u32, r: &CaseResult, known: &[Known], agg: Option<&mut Agg>) -
     fatal
 }
 
-pub fn run_one_checked(case: &Case, trace: bool, alloc_on: bool) -> Result<CaseResult, String> {
-    match catch_unwind(AssertUnwindSafe(|| run_case(case, trace, alloc_on))) {
+pub fn run_one_checked(case: &Case, trace: bool, alloc_on: bool, focus: u32) -> Result<CaseResult, String> {
+    match catch_unwind(AssertUnwindSafe(|| run_case(case, trace, alloc_on, focus))) {
         Ok(r) => Ok(r),
         Err(e) => {
             let msg = if let Some(s) = e.downcast_ref::<&str>() {
@@ -272,6 +273,10 @@ pub fn run_one_checked(case: &Case, trace: bool, alloc_on: bool) -> Result<CaseR
 }
 
 pub static PROGRESS: AtomicU64 = AtomicU64::new(0);
+
+/// failures reported so far (shrunk ones, and provisional unshrunk ones pushed at the moment of the first
+/// failure of a shard): the watchdog reads this when a shard hangs inside the crate
+pub static SO_FAR: Mutex<Vec<Failure>> = Mutex::new(Vec::new());
 
 pub fn run_e1(prop: u32, seed: u64, total_cases: u64, threads: usize, alloc_on: bool, max_shrink: u32) -> Outcome {
     let t0 = std::time::Instant::now();
@@ -306,7 +311,7 @@ pub fn run_e1(prop: u32, seed: u64, total_cases: u64, threads: usize, alloc_on: 
                     let agg = &mut *agg;
                     let mut failed = failed_cell.borrow_mut();
                     PROGRESS.fetch_add(1, Ordering::Relaxed);
-                    let r = match run_one_checked(&case, false, alloc_on) {
+                    let r = match run_one_checked(&case, false, alloc_on, 1 << prop) {
                         Ok(r) => r,
                         Err(m) => {
                             if failed.is_none() && agg.harness_errors.len() < 5 {
@@ -350,6 +355,14 @@ pub fn run_e1(prop: u32, seed: u64, total_cases: u64, threads: usize, alloc_on: 
                     match classify(prop, &r, &known, Some(agg)) {
                         Some((sig, msg)) => {
                             *failed = Some(sig.clone());
+                            if let Ok(mut g) = SO_FAR.lock() {
+                                g.push(Failure {
+                                    sig: sig.clone(),
+                                    msg: format!("(not shrunk) {msg}"),
+                                    case: case.clone(),
+                                    shard,
+                                });
+                            }
                             Err(TestCaseError::fail(format!("{sig}\u{1}{msg}")))
                         }
                         None => Ok(()),
@@ -363,7 +376,12 @@ pub fn run_e1(prop: u32, seed: u64, total_cases: u64, threads: usize, alloc_on: 
                     let mut it = reason.splitn(2, '\u{1}');
                     let sig = it.next().unwrap_or("").to_string();
                     let msg = it.next().unwrap_or("").to_string();
-                    g.1.push(Failure { sig, msg, case, shard });
+                    let f = Failure { sig, msg, case, shard };
+                    if let Ok(mut sf) = SO_FAR.lock() {
+                        sf.retain(|x| !(x.shard == shard));
+                        sf.push(f.clone());
+                    }
+                    g.1.push(f);
                 } else if let Err(TestError::Abort(r)) = res {
                     g.0.harness_errors.push(format!("proptest aborted: {}", r.message()));
                 }
